@@ -13,6 +13,8 @@ T = {
  "C09": ("twin-run differential with a constructed drain window (paused twin vs plain twin with identical completion order)", "For generated definitions, outcome tables and pause positions the paused twin and the plain twin receive the same completion reports in the same order; no offers while pausing/paused, paused exactly at the last report, same held-back work, same final status/errors/executed/output.", "output compared on variables with <= 1 publish event; executed sets on success only; R1 orders excluded; R18 matched"),
  "C10": ("stateful generation with one cancel at a generated position + ledger/model invariant", "Cancellation invariant (no offers, canceling/canceled by ledger, final canceled, output renders) on generated histories.", "definitions cannot fail expressions (C11 owns that); dormant != in flight"),
  "C19": ("cross-process differential replay under different PYTHONHASHSEED values + idempotence probe at every poll point", "Generated definitions (accepted and rejected mutants) and histories replayed in 4 interpreters with different hash seeds, digests compared step by step; three consecutive get_next_tasks() compared at every poll point with state diff.", "children use the same library-free driver; canonical JSON for objects, ordered comparison for lists"),
+ "C12": ("generated item lists/concurrency/outcomes/interleavings with an item-level ledger oracle", "With-items task driven under generated interleavings with pause/resume/cancel; item ledger checks once/in order/window/value/result order/iff-succeeded.", "item RUNNING is reported at dispatch, atomically with the poll"),
+ "C13": ("generated retry policies/commands x per-attempt outcome sequences; engine's retry decisions validated against a reference model + state-diff oracle per retried attempt", "Every observed retry must be allowed by the model (count, condition, workflow active); delays checked on offers; the retrying call may not publish, create records, stage successors or change status; later offers justified by the due ledger.", "upper-bound reading of the statement (declined retries are counted, not alarmed)"),
  "C14": ("generated definitions vs independent reference graph construction + metamorphic declaration-order permutations + serialisation round trip", "Composer output compared as sets of nodes/edges/keys/attributes with a reference built from the IR; every or 7 sampled permutations of the declaration order; round trip.", "the `splits` node attribute is not part of the statement and not compared"),
  "C16": ("round-trip / type-exact transport oracle over generated JSON values; before/after context comparison for purity; exhaustive access-form enumeration for hiding", "Generated values through every stage of a two-task pipeline in both languages and all reference forms with persist/restore; mutating-expression shapes for purity; exhaustive internal-name access forms.", "strings with expression/comment delimiters and lone surrogates are outside the domain"),
  "C18": ("stateful generation + temporal invariant over consecutive persisted states", "Append-only / frozen-record invariant over serialize()['state'] after every call of generated histories.", "with-items rerun reuses its record by design"),
